@@ -184,12 +184,13 @@ def spliceConvertedOld {P : Type} (empty : P) (M S : Rec P) : Rec P := fun c =>
   else M c
 
 /-- Proto entry.  The variants that return a fresh proto leave the caller's object to whatever the
-serde's aliasing does to it (`writeBack`); the in-place variants overwrite it. -/
+serde's aliasing does to it (`writeBack`) — `optimize` writes the recorded tensor names back (`restore`);
+the in-place variants overwrite it. -/
 def protoPath {P I W : Type} (s : Serde P I) (T : Api → Opts W → Rec I → Rec I) (f : Api) (o : Opts W)
     (M : Rec P) : Outcome (Rec P) :=
   let m' := T f (forward f .proto o) (s.de M)
   match f with
-  | .optimize => ⟨s.writeBack M m', .fresh (s.ser m')⟩        -- new_proto = serialize_model(model_ir); return new_proto
+  | .optimize => ⟨s.restore M (s.writeBack M m'), .fresh (s.ser m')⟩  -- with _preserve_tensor_names(model): …; return new_proto  (0d5ec74)
   | .foldConstants => ⟨s.ser m', .aux⟩                         -- Clear(); CopyFrom(new_proto); return result
   | .removeUnusedNodes => ⟨s.ser m', .none⟩
   | .removeUnusedFunctions => ⟨s.ser m', .none⟩
@@ -198,12 +199,12 @@ def protoPath {P I W : Type} (s : Serde P I) (T : Api → Opts W → Rec I → R
   | .convertVersion => ⟨spliceConverted s.empty (s.writeBack M m') (s.ser m'), .none⟩
   | .replaceFunctions => ⟨s.writeBack M m', .fresh (s.ser m')⟩
 
-/-- `optimize`'s proto entry once it runs inside `with _preserve_tensor_names(model):` (proposed repair of
-C15-ALIAS): same result, and the caller's proto gets its recorded tensor names back. -/
-def protoOptimizeRestoring {P I W : Type} (s : Serde P I) (T : Api → Opts W → Rec I → Rec I) (o : Opts W)
+/-- `optimize`'s proto entry as it was before fix 0d5ec74 (no `_preserve_tensor_names`): the caller's proto is
+left to the serde's write-through (kept for the refutation witness of C15-ALIAS). -/
+def protoOptimizeOld {P I W : Type} (s : Serde P I) (T : Api → Opts W → Rec I → Rec I) (o : Opts W)
     (M : Rec P) : Outcome (Rec P) :=
   let m' := T .optimize (forward .optimize .proto o) (s.de M)
-  ⟨s.restore M (s.writeBack M m'), .fresh (s.ser m')⟩
+  ⟨s.writeBack M m', .fresh (s.ser m')⟩
 
 /-- Proto entry of `convert_version` as it was before fix 4aa0d5c. -/
 def protoConvertOld {P I W : Type} (s : Serde P I) (T : Api → Opts W → Rec I → Rec I) (o : Opts W) (M : Rec P) :
